@@ -276,12 +276,19 @@ def signature(it, obs, j, clauses):
     explain it (root-cause class); anything not explained by a known class gets the plain clause signature."""
     cfg, ops = it["cfg"], it["ops"]
     p = primary(clauses)
-    if set(clauses) <= {"order", "order_after_restart"} and cfg["scheme"] in ("D", "T") and cfg["zone"] == "L":
+    order_cl = set(clauses) & {"order", "order_after_restart"}
+    if order_cl and cfg["scheme"] in ("D", "T") and cfg["zone"] == "L":
         # local wall-clock time repeats when DST ends: a later instant gets an earlier suffix
         ts = [op[2] if op[0] in ("C", "R") else op[3] for op in ops[:j + 1]]
         sx = [suffix(t, cfg) for t in ts]
         if any(ts[a] < ts[b] and sx[a] > sx[b] for a in range(len(ts)) for b in range(a + 1, len(ts))):
-            return f"local-time-suffix-goes-back-when-dst-ends:scheme={cfg['scheme']}:order"
+            rest = set(clauses) - order_cl
+            if not rest:
+                return f"local-time-suffix-goes-back-when-dst-ends:scheme={cfg['scheme']}:order"
+            # the order clauses are that recorded deviation; the execution shows a second one at the same time (e.g. the restart
+            # that forgets rotated files): classify what remains
+            clauses = sorted(rest)
+            p = primary(clauses)
     if set(clauses) <= RESTART_CLAUSES and cfg["scheme"] in ("D", "T"):
         # an append-mode restart happened while rotated files existed that the scheme's recovery does not pick up
         for i in range(j, -1, -1):
